@@ -18,6 +18,7 @@ LEVEL = 'translation_validation'
 TECHNIQUE = 'reference plan interpreter over sqlite3 (integrations as ATTACHed schemas) vs direct execution of the original query; clause-wise witness reduction'
 RULE = ('queries = generated multi-integration SELECTs / set operations / CTEs x 3-6 random database states x catalog forms; a case counts when '
         'the plan has >= 2 fetch steps and was fully interpreted; distinct by (query, catalog form)')
+RULE += '; also: column-vs-constant comparisons written either way round, chained set operations (bag semantics in the interpreter), trailing ORDER BY .. LIMIT after a set operation, CTE interaction shapes'
 ASSUMPTIONS = ['step semantics as encoded in vf/ref/plan_interp.py from the docstrings of planner/steps.py',
                'sqlite3 3.40 reference engine; every column reference is qualified by a table alias',
                'cases whose plan the interpreter cannot resolve unambiguously are counted as not-interpretable, never judged']
